@@ -114,3 +114,89 @@ func ZZC10_ocidir_history() {
 }
 
 const zzG10 = "/lay"
+
+// Concurrent updates of one subject on a layout through one client: two tasks
+// each push or referrer-aware delete their own artifact; before every
+// state-changing file-system call the other task may be scheduled first
+// (context-bounded, zzTurnSig). Afterwards the referrers are exactly the
+// pre-state plus / minus the two updates.
+func ZZC10_ocidir_concurrent() {
+	zzos.Reset()
+	zzos.Cur.Put(zzG10+"/oci-layout", []byte(`{"imageLayoutVersion":"1.0.0"}`))
+	zzos.Cur.Put(zzG10+"/index.json", []byte(`{"schemaVersion":2,"mediaType":"application/vnd.oci.image.index.v1+json","manifests":[]}`))
+	ctx := context.Background()
+	r, _ := ref.New("ocidir://" + zzG10)
+	o := New()
+	subj := descriptor.Descriptor{MediaType: mediatype.OCI1Manifest, Digest: digest.FromBytes([]byte("subject")), Size: 7}
+	rSubj := r.SetDigest(subj.Digest.String())
+	arts := []manifest.Manifest{zzArtifact(0, subj, "x"), zzArtifact(1, subj, "x"), zzArtifact(2, subj, "x")}
+	live := []bool{false, false, false}
+	for i := range arts {
+		if zzBool("pre_live") {
+			zzAssert(o.ManifestPut(ctx, r.SetDigest(arts[i].GetDescriptor().Digest.String()), arts[i]) == nil, "put_succeeds")
+			live[i] = true
+		}
+	}
+	isDel := []bool{zzBool("task_deletes"), zzBool("task_deletes")}
+	zzTurnBudget(2 + zzTier())
+	zzos.Cur.MayFail = func(op, name string) bool {
+		if op != "read" && op != "open" {
+			h := 7
+			for _, s := range []string{op, name} {
+				for i := 0; i < len(s); i++ {
+					h = (h*31 + int(s[i])) % 1000003
+				}
+			}
+			zzTurnSig(h)
+		}
+		return false
+	}
+	errs := make([]error, 2)
+	done := make(chan int, 2)
+	for t := 0; t < 2; t++ {
+		go func(t int) {
+			rm := r.SetDigest(arts[t].GetDescriptor().Digest.String())
+			if isDel[t] {
+				errs[t] = o.ManifestDelete(ctx, rm, scheme.WithManifestCheckReferrers())
+			} else {
+				errs[t] = o.ManifestPut(ctx, rm, arts[t])
+			}
+			done <- t
+		}(t)
+	}
+	<-done
+	<-done
+	zzos.Cur.MayFail = nil
+	zzReach("layout_tasks_finished")
+	for t := 0; t < 2; t++ {
+		if isDel[t] {
+			if live[t] {
+				zzAssert(errs[t] == nil, "delete_of_live_artifact_succeeds")
+			}
+			if errs[t] == nil {
+				live[t] = false
+			}
+		} else {
+			zzAssert(errs[t] == nil, "put_succeeds")
+			live[t] = true
+		}
+	}
+	rl, err := o.ReferrerList(ctx, rSubj)
+	zzAssert(err == nil, "list_succeeds")
+	nLive := 0
+	for j := range arts {
+		cnt := 0
+		for _, d := range rl.Descriptors {
+			if d.Digest == arts[j].GetDescriptor().Digest {
+				cnt++
+			}
+		}
+		if live[j] {
+			nLive++
+			zzAssert(cnt == 1, "live_artifact_listed_exactly_once")
+		} else {
+			zzAssert(cnt == 0, "deleted_or_absent_artifact_not_listed")
+		}
+	}
+	zzAssert(len(rl.Descriptors) == nLive, "nothing_else_listed")
+}
